@@ -127,12 +127,27 @@ thread_local! {
 /// how far ahead of the current ledger the keeper keeps every durable entry alive
 pub const KEEPER_HORIZON: u32 = 3_000_000;
 
+thread_local! {
+    /// (file, line, message) of the most recent panic on this thread
+    pub static LAST_PANIC: std::cell::RefCell<Option<(String, u32, String)>> = std::cell::RefCell::new(None);
+}
+
 pub fn install_quiet_panic_hook() {
     use std::sync::Once;
     static ONCE: Once = Once::new();
     ONCE.call_once(|| {
         let default = std::panic::take_hook();
         std::panic::set_hook(Box::new(move |info| {
+            // remember where and why (explore::guarded turns a failed setup assertion of a
+            // scenario into a reportable mismatch instead of a crash)
+            let msg = info
+                .payload()
+                .downcast_ref::<&str>()
+                .map(|s| s.to_string())
+                .or_else(|| info.payload().downcast_ref::<String>().cloned())
+                .unwrap_or_default();
+            let loc = info.location().map(|l| (l.file().to_string(), l.line())).unwrap_or_default();
+            LAST_PANIC.with(|p| *p.borrow_mut() = Some((loc.0, loc.1, msg)));
             // panics inside contract code are caught by the host and are ordinary rejections;
             // panics of the harness itself (paths relative to this crate) are always shown
             let in_harness = info
